@@ -123,7 +123,7 @@ def point_sets(draw, length, nmin=2, nmax=30, two_lists=True, n2max=30, families
             d2 = math.asin(sd2)
             r2 = b[0] + math.degrees(math.atan2(math.sin(brg) * math.sin(s_) * math.cos(d1), math.cos(s_) - math.sin(d1) * sd2))
             p2.append((_wrap(r2), sgn * _clipdec(math.degrees(d2))))
-    elif fam == 'pole-exact':
+    elif fam in ('pole-exact', 'pole-near'):
         # one or two points exactly on a pole (dec = +-90, any RA) and the rest on small circles around it whose radius is a
         # stated multiple of the length; separations from the pole are exactly those radii
         sgn = draw(st.sampled_from([1, -1]))
@@ -133,7 +133,8 @@ def point_sets(draw, length, nmin=2, nmax=30, two_lists=True, n2max=30, families
             for k in range(n):
                 ra = _wrap(180.0 * (1 + draw(unitf)))
                 if k < k_on_pole:
-                    pts.append((ra, sgn * 90.0))
+                    # exactly on the pole, or (pole-near, also valid where |Dec| < 90 is required) a hair away from it
+                    pts.append((ra, sgn * (90.0 if fam == 'pole-exact' else 90.0 - draw(st.sampled_from([1e-13, 1e-9, 1e-6, 2e-5])))))
                 else:
                     f = draw(st.sampled_from([0.5, 0.9, 0.99, 1.01, 1.5, 0.3, 3.0, 7.0]))
                     pts.append((ra, sgn * max(0.0, 90.0 - f * L)))
